@@ -51,18 +51,63 @@ def _raw_value(r):
     raise ValueError(t)
 
 
+def _garbage(g):
+    """things that are neither a mapping nor an iterable of pairs / members"""
+    return {"int": 12345, "none": None, "text": "text", "ints": [1, 2, 3], "obj": object()}[g]
+
+
+def _seq_value(v):
+    return _garbage(v["garbage"]) if isinstance(v, dict) else v
+
+
+def _apply_dict_op(el, name, r):
+    """one set()/set_flat() on a Dict; -> (op kind, input object)"""
+    if r["t"] == "unset":
+        return None, None
+    if r["t"] == "flat":
+        el.set_flat([((name or "") + "_" + k, v) for k, v in r["pairs"]])
+        return "flat", None
+    if r["t"] == "garbage":
+        obj = _garbage(r["g"])
+    else:
+        obj = _raw_value(r)
+    el.set(obj)
+    return "set", obj
+
+
 def build(case):
-    """-> (element, extras) on the real flatland"""
+    """-> the element on the real flatland, after the recipe's whole history of set()/set_flat() calls.
+    `b["history"]` lists earlier inputs (good, bad, garbage) applied before the recipe's final one; the element
+    is tagged with whether `.raw` is what the documentation says it is: the input of the LAST set()."""
     import flatland
+    from flatland.schema.base import Unset
     b = case["build"]
     kind = b["kind"]
+    hist = b.get("history", [])
+
+    def tag(target, top, op, obj):
+        ok = True
+        if op == "set":
+            ok = top.raw is obj
+        elif op == "flat":
+            ok = top.raw is Unset
+        target._verif_raw_ok = ok
+        target._verif_last = (op, obj)
+        return target
     if kind in SCALARS:
         schema = _scalar_cls(kind).named(b.get("name"))
         if "label" in b:
             schema = schema.using(label=b["label"])
         el = schema()
+        op, obj = None, None
+        for h in hist:
+            el.set(h)
+            op, obj = "set", h
         if not b.get("noset"):
-            el.set(b.get("set"))
+            obj = b.get("set")
+            el.set(obj)
+            op = "set"
+        tag(el, el, op, obj)
         if "assign" in b:
             # "only validation routines should write this attribute directly" — they do
             el.value = b["assign"]["value"]
@@ -76,11 +121,17 @@ def build(case):
         if "label" in b:
             cont = cont.using(label=b["label"])
         el = cont()
+        op, obj = None, None
+        for h in hist:
+            obj = _seq_value(h)
+            el.set(obj)
+            op = "set"
         if not b.get("noset"):
-            el.set(b["values"])
-        if "index" in b:
-            return el[b["index"]]
-        return el
+            obj = _seq_value(b["values"])
+            el.set(obj)
+            op = "set"
+        target = el[b["index"]] if "index" in b else el
+        return tag(target, el, op, obj)
     if kind == "fields":
         fields = []
         for f in b["fields"]:
@@ -88,24 +139,23 @@ def build(case):
             if "label" in f:
                 s = s.using(label=f["label"])
             fields.append(s)
-        el = flatland.Dict.named(b.get("name")).of(*fields)()
+        el = flatland.Dict.named(b.get("name")).of(*fields).using(policy=None)()
+        for h in hist:
+            el.set(_garbage(h["garbage"]) if "garbage" in h else dict(h["pairs"]))
         for f in b["fields"]:
             el[f["name"]].set(f.get("set"))
-        if "child" in b:
-            return el[b["child"]]
-        return el
+        target = el[b["child"]] if "child" in b else el
+        return tag(target, el, None, None)
     if kind == "Dict":
         fields = [flatland.String.named(n) for n in b["fields"]]
         cls = flatland.SparseDict if b.get("sparse") else flatland.Dict
         el = cls.named(b.get("name")).of(*fields).using(policy=None)()
-        r = b["raw"]
-        if r["t"] == "unset":
-            pass
-        elif r["t"] == "flat":
-            el.set_flat([(b.get("name", "") + "_" + k, v) for k, v in r["pairs"]])
-        else:
-            el.set(_raw_value(r))
-        return el
+        op, obj = None, None
+        for r in hist + [b["raw"]]:
+            o, x = _apply_dict_op(el, b.get("name"), r)
+            if o is not None:
+                op, obj = o, x
+        return tag(el, el, op, obj)
     raise ValueError(kind)
 
 
@@ -208,7 +258,10 @@ def view_of(case, el):
         view["pos"] = pos[0] if pos else None
     if b["kind"] == "Dict":
         view["schema_keys"] = list(el.field_schema_mapping.keys())
-        raw = el.raw
+        # what the documentation calls raw: the input of the LAST set() (Unset after set_flat / never set) — taken
+        # from the recipe, not from the element, so that stale bookkeeping shows as a disagreement
+        op, obj = getattr(el, "_verif_last", (None, None))
+        raw = obj if op == "set" else Unset
         if raw is Unset:
             view["raw"] = {"t": "unset"}
         elif raw is None:
@@ -454,11 +507,12 @@ def documented(case, el):
         lo, hi = v.get("minimum", 1), v.get("maximum", 1)
         return lo <= n <= hi, ("exact" if lo == hi else "range", extra)
     if cls in ("SetWithKnownFields", "SetWithAllFields") and kind == "Dict":
-        raw = el.raw
-        if raw is Unset or raw is None:
-            return True, None
-        r = b["raw"]
-        if r["t"] in ("int", "ints"):
+        # decided from the recipe's LAST set()/set_flat() alone — earlier inputs of the same element do not matter
+        ops = [o for o in b.get("history", []) + [b["raw"]] if o["t"] != "unset"]
+        r = ops[-1] if ops else {"t": "unset"}
+        if r["t"] in ("unset", "flat", "none"):
+            return True, None  # raw not available
+        if r["t"] in ("int", "ints", "garbage"):
             return True, None  # not iterable as pairs: deemed valid
         if r["t"] in ("iter", "gen"):
             # a one-shot iterator was consumed by set(): the raw data is no longer available — "only elements in
@@ -585,6 +639,10 @@ def expected_message(validator, el, key, extra):
 def oracle_case(case):
     obs, el, validator = run_case(case)
     fails = []
+    if not getattr(el, "_verif_raw_ok", True):
+        # Element.raw: "The element's raw, unadapted value from input" — of the most recent set()
+        fails.append({"clause": "raw-is-the-last-input", "expected": "element.raw is the object passed to the last set()",
+                      "observed": "stale raw"})
     want, msg = documented(case, el)
     cls = case["v"]["cls"]
     if want is None:
@@ -1024,9 +1082,50 @@ def with_overrides(rng, case):
     return case
 
 
+GARBAGE = ["int", "none", "text", "ints", "obj"]
+
+
+def dict_ops_pool(fields):
+    """inputs a Dict may have received earlier: complete, with a stray key, with a missing key, garbage, set_flat"""
+    good = [[f, "v"] for f in fields]
+    return [{"t": "dict", "pairs": good}, {"t": "dict", "pairs": good + [["zz", "v"]]}, {"t": "dict", "pairs": good[1:]},
+            {"t": "pairs", "pairs": good[:1] + [["q", "v"]]}, {"t": "flat", "pairs": good}, {"t": "none"}] + \
+           [{"t": "garbage", "g": g} for g in GARBAGE]
+
+
+def with_history(rng, case):
+    """earlier set()/set_flat() calls on the same element (good input, bad input, garbage — in any order) before
+    the recipe's final one: whatever an earlier call left behind must not influence the verdict"""
+    b = case["build"]
+    kind = b["kind"]
+    p = 0.4 if kind == "Dict" else 0.15
+    if rng.random() >= p or b.get("noset"):
+        return case
+    n = rng.choice([1, 1, 2])
+    if kind == "Dict":
+        pool = dict_ops_pool(b["fields"])
+        b["history"] = [copy.deepcopy(rng.choice(pool)) for _ in range(n)]
+        if rng.random() < 0.5:
+            b["raw"] = copy.deepcopy(rng.choice(pool))  # the final input is garbage / bad just as often
+    elif kind in SCALARS:
+        pool = [None, "", "abc", "12", 5, 4111111111111111, True, " x ", "a@b.c", "http://h.example/#f"]
+        b["history"] = [rng.choice(pool) for _ in range(n)]
+    elif kind in ("List", "Array"):
+        pool = [["a", "a", "b"], [], ["1", "x"], {"garbage": "int"}, {"garbage": "none"}, ["z"] * 5]
+        b["history"] = [copy.deepcopy(rng.choice(pool)) for _ in range(n)]
+        if "index" not in b and rng.random() < 0.2:
+            b["values"] = {"garbage": rng.choice(["int", "none"])}
+    elif kind == "fields":
+        names = [f["name"] for f in b["fields"]]
+        pool = [{"pairs": [[nm, "h"] for nm in names]}, {"pairs": [[names[0], "q"], ["zz", "1"]]}, {"garbage": "int"}, {"garbage": "text"}]
+        b["history"] = [copy.deepcopy(rng.choice(pool)) for _ in range(n)]
+    return case
+
+
 def with_pre_errors(rng, case):
     """sometimes the element already carries errors, sometimes the very message that will be added"""
     with_overrides(rng, case)
+    with_history(rng, case)
     r = rng.random()
     if r < 0.12:
         case["pre_errors"] = ["earlier problem"]
@@ -1116,6 +1215,12 @@ class C15(Property):
         for n_lab in (14, 15, 25):
             out.append({"v": {"cls": "IsEmail"}, "build": {"kind": "String", "name": "email",
                                                           "set": "bob@" + ".".join(["snow\u2603man"] * n_lab) + ".com"}})
+        # seeded C15-dict-raw-kept-on-failed-set: a stray-key mapping, then something unadaptable
+        for g in ("int", "none", "text", "ints"):
+            for cls in ("SetWithKnownFields", "SetWithAllFields"):
+                out.append({"v": {"cls": cls}, "build": {"kind": "Dict", "name": "d", "fields": ["x", "y"],
+                                                        "history": [{"t": "dict", "pairs": [["x", "1"], ["z", "3"]]}],
+                                                        "raw": {"t": "garbage", "g": g}}})
         # fixed fe503f0 (audit rev3a C15-1): set() from a one-shot iterator / generator
         for t, pairs in (("iter", [["a", "1"], ["b", "2"]]), ("iter", [["a", "1"], ["b", "2"], ["z", "3"]]), ("gen", [["a", "1"], ["b", "2"]])):
             for cls in ("SetWithAllFields", "SetWithKnownFields"):
@@ -1170,6 +1275,15 @@ class C15(Property):
             for ln in (60, 62, 63, 64):
                 yield finish({"v": {"cls": "IsEmail"}, "build": {"kind": "String", "name": "email",
                                                                 "set": "bob@" + ".".join(["x" * ln] * n_lab) + ".com"}})
+        # raw-key validators after every sequence of 2 (thorough: 2-3) earlier/final inputs out of 11 kinds
+        flds = ["a", "b"]
+        pool = dict_ops_pool(flds)
+        for length in ((2, 3) if tier == "thorough" else (2,)):
+            for seq in itertools.product(range(len(pool)), repeat=length):
+                for cls in ("SetWithKnownFields", "SetWithAllFields"):
+                    ops = [copy.deepcopy(pool[i]) for i in seq]
+                    yield finish({"v": {"cls": cls}, "build": {"kind": "Dict", "name": "d", "fields": flds,
+                                                              "history": ops[:-1], "raw": ops[-1]}})
         # Luhn: every number below 2000 (thorough: 20000)
         top = 20000 if tier == "thorough" else 2000
         for n in range(0, top):
@@ -1177,7 +1291,7 @@ class C15(Property):
 
     exhaustive_note = ("every comparison class at value = bound-1, bound, bound+1, None, unadapted; length classes at every length 0..6; "
                        "NotDuplicated with one duplicate at every pair of positions of a 4-member List/Array checked at every index; "
-                       "member counts 0..5 against every bound 0..4; IsEmail on 1..32 international labels (text length vs IDN length around 253) and on 60/62/63/64-character ASCII labels; Luhn10 on every integer below 2000 (thorough: 20000)")
+                       "member counts 0..5 against every bound 0..4; SetWithKnownFields/SetWithAllFields after every sequence of 2 (thorough: also 3) inputs out of 11 kinds (complete / stray key / missing key / pairs / set_flat / None / five kinds of garbage); IsEmail on 1..32 international labels (text length vs IDN length around 253) and on 60/62/63/64-character ASCII labels; Luhn10 on every integer below 2000 (thorough: 20000)")
 
     def generate(self, rng, n, tier):
         for _ in range(n):
@@ -1250,6 +1364,12 @@ class C15(Property):
         if case.get("pre_errors"):
             c = copy.deepcopy(case)
             c["pre_errors"] = []
+            r = redo(c)
+            if r:
+                yield r
+        for i in range(len(b.get("history", []))):
+            c = copy.deepcopy(case)
+            del c["build"]["history"][i]
             r = redo(c)
             if r:
                 yield r
